@@ -15,6 +15,10 @@
    The enabling condition of every event IS the statement's constraint (Lifecycle!MayStartExt,
    MayStartNode, MayStopNode, MayStopExt, MayStartInner, MayStopInner, FinalOK): any legal order is a
    behaviour, any illegal call has no enabled action and the trace is rejected at that line.
+   One clause is reported separately instead of rejecting the lifetime: SharedDownstreamStarted at the
+   inner_start of a shared receiver (TLC prints SHARED_EARLY_AT <line>; checks/C10.py turns it into a
+   violation with the narrow signature of finding C10-shared-receiver-early-start), so that all other
+   clauses are still validated on lifetimes that show this known defect.
    A processor instance cannot know its pipeline, so the first event of an instance binds it
    nondeterministically to a pipeline that lists the processor (one instance per pipeline); TLC searches
    for a binding that explains the whole lifetime. *)
